@@ -116,7 +116,7 @@ func regIdx(a aAlt) []int {
 
 var aTampers = []string{"ctl-desc", "ctl-other", "dat-other", "dat-body-resummed", "dat-body-stale", "dat-nosum", "consistent-badsum",
 	"consistent-nosum", "consistent-nosum-link", "consistent-malformed", "consistent-nodatahash", "consistent-dupdatahash", "other-apk", "newer-apk",
-	"zero-index", "missing", "sig-flip", "consistent-q1"}
+	"zero-index", "missing", "sig-flip", "consistent-q1", "consistent-blanksum"}
 
 // applyTamper edits the serve entry of package i (adding an alternative build when needed).
 func applyTamper(r *Rng, c *aCase, v []aServe, i int, kind string) {
@@ -170,8 +170,8 @@ func applyTamper(r *Rng, c *aCase, v []aServe, i int, kind string) {
 	case "dat-nosum":
 		k := addAlt(func(a *aAlt) { x := someReg(a); a.Files[x].Rec = "none" })
 		s.Dat = aRef{i, k}
-	case "consistent-badsum", "consistent-nosum", "consistent-malformed", "consistent-q1":
-		rec := map[string]string{"consistent-badsum": "bad", "consistent-nosum": "none", "consistent-malformed": "malformed", "consistent-q1": "q1"}[kind]
+	case "consistent-badsum", "consistent-nosum", "consistent-malformed", "consistent-q1", "consistent-blanksum":
+		rec := map[string]string{"consistent-badsum": "bad", "consistent-nosum": "none", "consistent-malformed": "malformed", "consistent-q1": "q1", "consistent-blanksum": "blankq1"}[kind]
 		k := addAlt(func(a *aAlt) { x := someReg(a); a.Files[x].Rec = rec })
 		s.Ctl, s.Dat, s.Index = aRef{i, k}, aRef{i, k}, "served"
 	case "consistent-nosum-link":
